@@ -125,31 +125,11 @@ func (cr *checkRunner) checkStates(ctx context.Context, checks []module.Check) (
 		}
 	}
 
-	if len(cr.checkedRcpts) != 0 {
-		for _, rcpt := range cr.checkedRcpts {
-			err := cr.runAndMergeResults(states, func(s module.CheckState) module.CheckResult {
-				// Avoid calling CheckRcpt for the same recipient for the same check
-				// multiple times, even if requested.
-				cr.checkedRcptsLock.Lock()
-				if _, ok := cr.checkedRcptsPerCheck[s][rcpt]; ok {
-					cr.checkedRcptsLock.Unlock()
-					return module.CheckResult{}
-				}
-				if cr.checkedRcptsPerCheck[s] == nil {
-					cr.checkedRcptsPerCheck[s] = make(map[string]struct{})
-				}
-				cr.checkedRcptsPerCheck[s][rcpt] = struct{}{}
-				cr.checkedRcptsLock.Unlock()
-
-				res := s.CheckRcpt(ctx, rcpt)
-				return res
-			})
-			if err != nil {
-				closeStates()
-				return nil, err
-			}
-		}
-	}
+	// Recipients handled before are not replayed: a state is created when the
+	// first recipient (or the sender) in the scope of the check is handled, so
+	// all previous recipients were handled by blocks the check is not
+	// referenced in - it should not see them, let alone reject the current
+	// recipient because of them.
 
 	// This is done after all actions that can fail so we will not have to remove
 	// state objects from main map.
